@@ -130,7 +130,9 @@ class Client:
                 conn.putheader(k, v)
             for k, v in headers.items():
                 conn.putheader(k, v)
-            if content_length is not None:
+            if content_length is False:
+                pass              # neither Content-Length nor Transfer-Encoding: a request without a body stream
+            elif content_length is not None:
                 conn.putheader("Content-Length", str(content_length))
             elif wire or method in ("PUT", "POST"):
                 conn.putheader("Content-Length", str(len(wire)))
